@@ -178,6 +178,7 @@ void sx_on_quiescent(void)
 	int i;
 
 	sx_cover("event.quiescent");
+	sx_leak_check_unreachable();	/* C18: nothing the library allocated has been lost track of */
 	sx_assert(posters_done == nP, "C08.poster-blocked");
 	for (i = 0; i < MAXE; i++) {
 		if (!E[i].registered)
@@ -237,6 +238,8 @@ void sx_main(void)
 		sx_assert(ret != 0, "harness.event-register-did-not-fail");
 		sx_cover("C07.event-register-fails");
 		free(ev);
+		if (sx_opt("regfail", 0) == 2)
+			goto carry_on;	/* the application goes on and registers its events once descriptors are available */
 		k_idle_hook = NULL;
 		/* nothing is registered: iv_main must return at once instead of sleeping for ever */
 		iv_main();
@@ -246,6 +249,7 @@ void sx_main(void)
 		sx_leak_check(0);
 		return;
 	}
+carry_on:
 	if (sx_opt("twofds", 0)) {
 		/* two quiet descriptors of the owner are registered before its first event (with the raw-event
 		 * transport the wake-up descriptor comes after them in the poll table) */
